@@ -1,3 +1,4 @@
+import Shentu.Gen.CvmBridge
 import Shentu.Model.Cvm
 import Shentu.Proofs.BankLemmas
 import Shentu.Proofs.Tactics
@@ -17,6 +18,13 @@ def tx (bond : Denom) (l : Ledger) (vs : Vesting.Accounts) (s : State) (caller c
   match call bond l vs s caller callee value d0 z t hd with
   | .ok r => (r, true)
   | .error _ => ((l, s), false)
+
+/-- `Keeper.Call` hands the execution's error on: after `k.Tx` the error branch returns the error, and the result is returned with
+    `nil` only past it (the defect repaired earlier was `return res, nil` straight after the call) -/
+theorem tie_call_hands_error_on : Gen.CvmBridge.call_found = true ∧ Gen.CvmBridge.call =
+    ["return []byte{}, err", "return []byte{}, err",
+     "call k.Tx(ctx, callerAddr, calleeAddr, msg.Value, msg.Data, []*payload.ContractMeta{}, view, false, false)",
+     "return []byte{}, err", "return res, nil"] := by decide
 
 /-- a failure is reported, and a reported failure has changed nothing -/
 theorem failed_call_changes_nothing (bond : Denom) (l : Ledger) (vs : Vesting.Accounts) (s : State) (caller callee : Addr) (v : Int)
